@@ -9,7 +9,7 @@ import os
 import numpy as np
 
 from checks import sbcfam
-from gen import slabs
+from gen import slabs, structures
 from monitors import core, pipeline
 from harness import main as hmain
 
@@ -70,6 +70,9 @@ def run_case(case):
         return out
     rng = np.random.default_rng(slabs.stable_seed(cell["key"], case["seed_class"], case["k"]))
     atoms, mapped = slabs.present(base, rng, noise=cell["noise"], track=groups)
+    # decorations that must not matter (own random stream: the presentation itself is unchanged)
+    drng = np.random.default_rng(slabs.stable_seed(cell["key"], case["seed_class"], 977))
+    decorations = structures.decorate(atoms, drng) if drng.random() < 0.35 else []
     ok, why = slabs.bonding_precondition(atoms)
     if ok and not slabs.interface_precondition(atoms, mapped):
         ok, why = False, "slabs_not_bonded_across_interface"
@@ -109,7 +112,7 @@ def run_case(case):
         core.set_recorder(None)
     out = rec.export()
     out["info"] = {"key": cell["key"], "nontrivial": True,
-                   "classes": {"pair": "%s/%s" % (cell["A"], cell["B"]), "facet": cell["facet"], "pbc": ("TTT" if cell["pbc_z"] else "TTF") + ("" if cell.get("vac", True) else "-novac"),
+                   "classes": {"decorated": bool(decorations), "pair": "%s/%s" % (cell["A"], cell["B"]), "facet": cell["facet"], "pbc": ("TTT" if cell["pbc_z"] else "TTF") + ("" if cell.get("vac", True) else "-novac"),
                                "noise": cell["noise"], "registry": cell["registry"], "layers": "%d+%d" % (cell["la"], cell["lb"]), "lateral": cell["n"]}}
     out["sample"] = {"cell": cell["key"], "natoms": len(atoms), "observed": obs}
     return out
